@@ -399,7 +399,7 @@ Section Render.
     if enabled then LEmit (lg_getmessage msg args) else LEmit None.
 End Render.
 
-(* ---- the rule (fixes._convert_to_string_formatting / _percent_format_string after a03c366) *)
+(* ---- the rule (fixes._convert_to_string_formatting / _percent_format_string after 79e10b7) *)
 Definition lg_is_field (p : part) : bool := match p with PFld _ _ _ => true | PLit _ => false end.
 Definition lg_field_ok (p : part) : bool :=
   match p with PFld _ _ None => true | PFld _ _ (Some _) => false | PLit _ => true end.
@@ -430,7 +430,7 @@ Fixpoint lg_args (ps : list part) : list nat :=
 Definition lg_rule (ps : list part) : option (text * list nat) :=
   if forallb lg_field_ok ps then Some (lg_fmt (existsb lg_is_field ps) ps, lg_args ps) else None.
 
-(* the rule before a03c366: str.format placeholders, format specs copied, conversions dropped *)
+(* the rule before 79e10b7: str.format placeholders, format specs copied, conversions dropped *)
 Fixpoint lg_fmt_old (ps : list part) : text :=
   match ps with
   | [] => []
